@@ -670,6 +670,7 @@ func (s *SymDense) GrowSym(n int) Symmetric {
 func (s *SymDense) PowPSD(a Symmetric, pow float64) error {
 	dim := a.SymmetricDim()
 	s.reuseAsNonZeroed(dim)
+	s.checkOverlapMatrix(a)
 
 	var eigen EigenSym
 	ok := eigen.Factorize(a, true)
